@@ -40,6 +40,12 @@ func genC03(g *gen) {
 	if c.Tier == "thorough" {
 		nOps = 3 + g.r.IntN(12)
 	}
+	releasing := g.chance(0.5)
+	faulty := g.chance(0.3)
+	if faulty {
+		c.SendBuffer = pick(g.r, 1, 3, 16, 16)
+		pool = stubsOf("async", "async", "corr", "mcast", "ucast", "qc", "rpc")
+	}
 	for t := 0; t < nThreads; t++ {
 		th := &Thread{Mgr: 0}
 		for i := 0; i < nOps; i++ {
@@ -55,6 +61,10 @@ func genC03(g *gen) {
 			}
 			for _, p := range plansInOrder(op.Plans) {
 				p.Late = g.chance(0.7)
+				// the order in which handlers start must not depend on how (often) earlier handlers release
+				if releasing {
+					p.Release = pick(g.r, "", "", "early", "twice", "helper", "concurrent")
+				}
 			}
 			if s.Kind == "cstream" {
 				g.safeStream(op, s)
@@ -65,6 +75,21 @@ func genC03(g *gen) {
 			th.Ops = append(th.Ops, op)
 		}
 		g.prog.Threads = append(g.prog.Threads, th)
+	}
+	if faulty {
+		// connections that break while requests are queued or being written: whatever reaches a
+		// server over one (new) connection must still arrive in the order of issue
+		c.FaultFree = false
+		for k := 1 + g.r.IntN(3); k > 0; k-- {
+			si := g.r.IntN(c.NServers)
+			a := 20 + g.r.IntN(400)
+			switch pick(g.r, "reset", "reset", "crash") {
+			case "reset":
+				g.prog.Faults = append(g.prog.Faults, &Fault{Kind: "reset", Srv: si, Mgr: -1, AtStep: a})
+			case "crash":
+				g.prog.Faults = append(g.prog.Faults, &Fault{Kind: "crash", Srv: si, Mgr: -1, AtStep: a}, &Fault{Kind: "restart", Srv: si, AtStep: a + 1 + g.r.IntN(100)})
+			}
+		}
 	}
 }
 
